@@ -194,7 +194,7 @@ def judge_sutton_zero(spec: Spec, pl: dict) -> list:
 def judge_dryness(spec: Spec, pl: dict) -> list:
     want = pl["outcome"]
     try:
-        t, p = _sutton(pl.get("g", 0.7), 0.02, 0.01, 0.03, pl["dryness"])
+        t, p = _sutton(pl.get("g", 0.7), *pl.get("fractions", (0.02, 0.01, 0.03)), pl["dryness"])
         got = "value" if math.isfinite(t) and math.isfinite(p) else "nan"
     except ValueError:
         got = "ValueError"
@@ -241,7 +241,11 @@ def stage_tables(ctx: core.Ctx, spec: Spec, n_comp: int, n_full: int, stride_ful
     rng = np.random.default_rng([ctx.seed, 19, 2])
     rows = 0
     worst = 0
-    comps = [drv.gas_values(rng, zero=(i == 1), only={2: "N2", 3: "H2S", 4: "CO2"}.get(i % 6 if i >= 6 else i)) for i in range(n_comp)]
+    comps = [drv.gas_values(rng, zero=(i == 1), only={2: "N2", 3: "H2S", 4: "CO2"}.get(i % 8 if i >= 8 else i)) for i in range(n_comp)]
+    # the ends of the gravity axis: methane (0.5538) and a very rich gas, beyond any "usual range" a helper might clip to
+    for i, g in ((5, 0.5538), (6, 1.75), (7, 0.56)):
+        if i < n_comp:
+            comps[i]["Gas Specific Gravity"] = g
     full = (14000, 1)
     for mx in sorted(spec.grid, key=lambda m: m[0] / m[1]):
         todo = comps[:n_full] if mx == full else comps
@@ -284,9 +288,10 @@ def stage_sutton(ctx: core.Ctx, spec: Spec, n_rand: int) -> None:
         ctx.case(f"zero/rand/{k}")
         _report(ctx, judge_sutton_zero(spec, pl), pl)
     for rec in spec.dryness:
-        pl = {"stage": "dryness", "dryness": rec["dryness"], "outcome": rec["outcome"]}
-        ctx.case(f"dryness/{rec['dryness']}")
-        _report(ctx, judge_dryness(spec, pl), pl)
+        for fr in ((0.02, 0.01, 0.03), (0.0, 0.0, 0.0), (0.04, 0.0, 0.0)):   # with contaminants, contaminant-free, nitrogen only
+            pl = {"stage": "dryness", "dryness": rec["dryness"], "outcome": rec["outcome"], "fractions": list(fr)}
+            ctx.case(f"dryness/{rec['dryness']}/{fr}")
+            _report(ctx, judge_dryness(spec, pl), pl)
     ctx.sample({"sutton_hc": spec.hc[0], "dryness": spec.dryness[0]})
 
 
@@ -322,7 +327,7 @@ def run(ctx: core.Ctx) -> None:
     spec = load_spec(ctx)
     if ctx.quick:
         stage_facade(ctx, spec, 40)
-        stage_tables(ctx, spec, n_comp=5, n_full=1, stride_full=7)
+        stage_tables(ctx, spec, n_comp=7, n_full=1, stride_full=7)
         stage_sutton(ctx, spec, 200)
     else:
         stage_facade(ctx, spec, 4000)
